@@ -158,3 +158,41 @@ Print Assumptions C11_ex_pop_short.
 Example C11_ex_ill_scoped : well_scoped [Exit; Explicit] -> False.
 Proof. exact ex_ill_scoped. Qed.
 Print Assumptions C11_ex_ill_scoped.
+
+(* ---- the same property on the state of the C01 evaluators (Model/Values.v) ----------------------------
+   Machine.v and RefSem.v share the input functions get_top / get_input / pop1 of Model/Values.v (values of
+   every kind, the scopes as `top_in` + `inner`).  A read history at one nesting level is a list of booleans
+   (true = the element `?`, false = a pop from the empty stack).  These statements say for that model what
+   C11_top / C11_empty / C11_inner say for Model/Input.v, so the two hand-written models of
+   helpers.get_input / helpers.pop cannot drift apart unnoticed. *)
+From Vy Require Model.Values Proofs.C11Machine.
+
+Theorem C11_core_top : forall h s ins c,
+  Values.inner s = [] -> Values.stk s = [] -> Values.top_in s = (ins, c) -> ins <> [] ->
+  let (s', vs) := C11Machine.reads h s in
+  vs = C11Machine.cyc ins c (length h) /\ Values.inner s' = [] /\ Values.stk s' = [] /\
+  Values.top_in s' = (ins, c + length h).
+Proof. exact C11Machine.top_reads. Qed.
+Print Assumptions C11_core_top.
+
+Theorem C11_core_empty : forall h s c,
+  Values.inner s = [] -> Values.stk s = [] -> Values.top_in s = ([], c) ->
+  let (s', vs) := C11Machine.reads h s in vs = repeat (Values.VInt 0) (length h) /\ s' = s.
+Proof. exact C11Machine.top_reads_empty. Qed.
+Print Assumptions C11_core_empty.
+
+Theorem C11_core_inner : forall h s args ca rest ins ci,
+  Values.inner s = (args, ca) :: rest -> Values.stk s = [] -> Values.top_in s = (ins, ci) -> args <> [] -> ins <> [] ->
+  let (s', vs) := C11Machine.reads h s in
+  vs = C11Machine.expected h args ca ins ci /\
+  Values.inner s' = (args, ca + C11Machine.count_b false h) :: rest /\ Values.stk s' = [] /\
+  Values.top_in s' = (ins, ci + C11Machine.count_b true h).
+Proof. exact C11Machine.inner_reads. Qed.
+Print Assumptions C11_core_inner.
+
+Example C11_core_example :
+  snd (C11Machine.reads [false; true; false; false; true]
+         (Values.mkSt [] [] ([Values.VInt 7; Values.VInt 8; Values.VInt 9], 0) [] [] 0 (Values.VInt 0) [] [] [] None [] false))
+  = [Values.VInt 7; Values.VInt 8; Values.VInt 9; Values.VInt 7; Values.VInt 8].
+Proof. exact C11Machine.top_reads_example. Qed.
+Print Assumptions C11_core_example.
